@@ -815,12 +815,13 @@ def run_models(cases, impl, strict=False):
 
 
 PARTIAL = [
-    "NJ consistency: that the score criterion's minimiser is a cherry of every additive matrix (Saitou-Nei / Studier-Keppler) "
-    "is NOT proved for n >= 5 (kept as Definition stmt_nj_picks_a_cherry; proved for every labelled quartet: "
-    "nj_quartet_consistency).  Proved: a join at a cherry is exact (lengths, reduced matrix, "
-    "node bookkeeping), it preserves the representation invariant, the final three-taxon step is exact, and "
-    "nj_consistency_partial: a run that joins a cherry at every step returns a tree listing every pair of tips at exactly "
-    "the input distance.  That real runs do join cherries is TESTED exhaustively over all labelled topologies up to the tier's size",
+    "NJ consistency is now PROVED for every binary tree metric with positive branch lengths (weighted split system: "
+    "nj_score_minimiser_is_cherry, nj_consistency, nj_consistency_on_trees).  Not formalised: that the inductive "
+    "construction star / replace-a-tip-by-a-cherry / relabel enumerates every leaf-labelled binary tree (every binary tree "
+    "with >= 4 tips has a cherry), that a tree is determined by its path metric, and polytomies (the returned tree then "
+    "has zero-length edges).  gnj with keep > 1 and numpy's argsort tie order are outside the model (every minimiser is "
+    "proved to be a cherry, so the tie order cannot matter on tree metrics); real runs are additionally TESTED exhaustively "
+    "over all labelled topologies up to the tier's size",
     "the duplicate shortcut of _PairwiseDistance.run: refuted for the pinned text (prefix_duplicate_shortcut_refuted), proved exact "
     "for the fixed text (fixed_duplicate_rule_exact); which of the two texts the source contains is read from the source "
     "(fail-closed text comparison), not proved",
